@@ -26,6 +26,12 @@ SHARED = "babylon::SharedMonotonicBufferResource"
 SWISS = "babylon::SwissMemoryResource"
 
 
+DEPENDS = {
+    "C19": "the shared and swiss resources keep their per-thread arenas in EnumerableThreadLocal",
+    "C14": "per-thread arenas are addressed by ThreadId",
+    "C04": "per-thread arenas live in a ConcurrentVector",
+}
+
 def units(tier):
     return [lib("reusable/memory_resource.cpp"), driver("memory_resource.cc")]
 
